@@ -488,6 +488,50 @@ func checkC16Py(c C16PyCase, st *stats.Collector) error {
 			return pk.Failf("go-metadata", "metadata #%d fetched through Python's index entry: %v", i, err)
 		}
 	}
+	if usable {
+		// the same Reader goes on: one read per topic (in turn: file, log-time, reverse order), then everything in the
+		// three orders - what a viewer does with a Python-recorded file it keeps open
+		topicSeen := map[string]bool{}
+		reads := 0
+		drain := func(label string, want []wl.MsgRef, order mcap.ReadOrder, opts ...mcap.ReadOpt) error {
+			it, err := rd.Messages(append(opts, mcap.InOrder(order))...)
+			if err != nil {
+				return pk.Failf("go-indexed-error", "%s: %v", label, err)
+			}
+			var items []mc.Triple
+			for len(items) <= len(all)+4 {
+				sc, ch, m, err := it.NextInto(nil)
+				if err != nil {
+					if !errors.Is(err, io.EOF) {
+						return pk.Failf("go-indexed-error", "%s: %v after %d items", label, err, len(items))
+					}
+					break
+				}
+				items = append(items, mc.Triple{S: mc.FromSchema(sc), C: mc.FromChannel(ch), M: mc.FromMessage(m)})
+			}
+			return checkSelection(label, items, want, pl, order)
+		}
+		for _, m := range all {
+			if topicSeen[m.C.Topic] || reads >= 3 {
+				continue
+			}
+			topicSeen[m.C.Topic] = true
+			order := mcap.ReadOrder(reads % 3)
+			reads++
+			if err := drain(fmt.Sprintf("Go read of topic %q (order %d) on a Reader kept open over a Python-written file (read #%d)", m.C.Topic, order, reads), wl.Select(all, []string{m.C.Topic}, 0, 0, true), order, mcap.WithTopics([]string{m.C.Topic})); err != nil {
+				return err
+			}
+		}
+		for _, order := range []mcap.ReadOrder{mcap.FileOrder, mcap.LogTimeOrder, mcap.ReverseLogTimeOrder} {
+			if err := drain(fmt.Sprintf("Go indexed read (order %d) after %d per-topic reads on the same Reader over a Python-written file", order, reads), all, order); err != nil {
+				return err
+			}
+		}
+		info2, err := rd.Info()
+		if err != nil || len(info2.ChunkIndexes) != len(d.Summary(specdec.OpChunkIndex)) {
+			return pk.Failf("go-info", "Info after the reads on the same Reader: %v, %d chunk indexes, the file has %d", err, len(info2.ChunkIndexes), len(d.Summary(specdec.OpChunkIndex)))
+		}
+	}
 	chans := map[uint16]bool{}
 	for _, m := range all {
 		chans[m.M.ChannelID] = true
